@@ -32,24 +32,39 @@ def supervise(argv):
     t0 = time.time()
     crumb = f"/var/tmp/pgverif-crumb-{os.getpid()}"
     env = dict(os.environ, PGVERIF_CHILD="1", PGVERIF_BREADCRUMB=crumb)
-    p = subprocess.Popen([sys.executable, "-W", "ignore", "-m", "pgverif.check"] + argv, env=env)
-    try:
-        rc = p.wait()
-    except KeyboardInterrupt:
-        p.kill()
-        raise
-    last = ""
-    try:
-        last = open(crumb).read()
-        os.unlink(crumb)
-    except OSError:
-        pass
+    def attempt():
+        p = subprocess.Popen([sys.executable, "-W", "ignore", "-m", "pgverif.check"] + argv, env=env)
+        try:
+            rc_ = p.wait()
+        except KeyboardInterrupt:
+            p.kill()
+            raise
+        last_ = ""
+        try:
+            last_ = open(crumb).read()
+            os.unlink(crumb)
+        except OSError:
+            pass
+        return rc_, last_
+
+    def signame(rc_):
+        try:
+            return signal.Signals(-rc_).name
+        except ValueError:
+            return str(-rc_)
+    rc, last = attempt()
     if rc >= 0:
         return rc
-    try:
-        name = signal.Signals(-rc).name
-    except ValueError:
-        name = str(-rc)
+    first = (signame(rc), last)
+    if first[0] in CRASH_SIGNALS and "--replay" not in argv:
+        # a crash that does not come back on an identical second run (same seed, same inputs) is not evidence against the
+        # library: the second run's verdict stands, the first attempt is mentioned
+        print(f"NOTE: the check process died on {first[0]} (last progress marker: {first[1][:200]}); running it once more", flush=True)
+        rc, last = attempt()
+        if rc >= 0:
+            print(f"NOTE: the crash of the first attempt ({first[0]}) did not come back")
+            return rc
+    name = signame(rc)
     pid = next((a.upper() for a in argv if not a.startswith("-")), "?")
     tier = argv[argv.index("--tier") + 1] if "--tier" in argv else os.environ.get("VERIF_TIER", "quick")
     if name not in CRASH_SIGNALS or "--replay" in argv:
